@@ -88,7 +88,7 @@ impl Scenario for EcdsaNet {
             real: &["bsv::ECDSA::{sign_with_deterministic_k, sign_with_random_k (OsRng behind the cfg(bsv_verif) hook), sign_with_k, sign_digest_with_deterministic_k, verify_digest, verify_hashbuf}", "bsv::PrivateKey::sign_message", "bsv::Signature::{verify_message, r, s}", "bsv::PublicKey::{verify_message, is_valid_message}", "bsv::ECDH::derive_shared_key"],
             stub: &["RefVerifier: textbook ECDSA verification over k256 group arithmetic", "RefSigner: RFC 6979 HMAC-SHA256 (and the section 3.6 additional-data variant over SHA-256 or double SHA-256) nonce generation + textbook signing + low-S, written against sha2 only", "entropy source = script installed through the hook", "S7 (bit-for-bit RFC 6979 equality) and the reference half of ECDH are reference-model oracles without a simulator dimension of their own; they ride in this world because it already exists"],
             assumptions: &["reversed-nonce mode is modelled as RFC 6979 with the byte-reversed digest as h1; the message scalar is always the big-endian digest", "k256's scalar/point arithmetic is trusted by both sides"],
-            required_probes: &["sign_det", "sign_det_reversed", "sign_random_k", "sign_with_k", "sign_digest", "sign_message", "random_k_equals_reference", "entropy_isolation_checked", "mispaired_msg", "mispaired_hash", "mispaired_key", "replayed", "ecdh", "key_near_n", "uncompressed_key", "sign_raw_digest", "raw_digest_ge_n", "same_message_other_key", "verify_with_other_key_encoding"],
+            required_probes: &["sign_det", "sign_det_reversed", "sign_random_k", "sign_with_k", "sign_digest", "sign_message", "random_k_equals_reference", "entropy_isolation_checked", "mispaired_msg", "mispaired_hash", "mispaired_key", "replayed", "ecdh", "key_near_n", "uncompressed_key", "sign_raw_digest", "raw_digest_ge_n", "same_message_other_key", "verify_with_other_key_encoding", "solved_key_for_boundary_s"],
             quick_runs: 20000,
             thorough_runs: 1500000,
             rlimit_as: 4 << 30,
@@ -142,7 +142,10 @@ impl Scenario for EcdsaNet {
                     } else {
                         None
                     };
-                    events.push(json!({"op": "sign", "entry": entry, "raw_digest": raw, "key": rng.pick(&keys).clone(), "compressed": rng.chance(2, 3), "hash": *rng.pick(&["sha256", "sha256d"]),
+                    // caller-nonce signatures whose raw s lands exactly on a chosen value: the private key is SOLVED for
+                    // (d = (s*k - z)/r), so the low-S boundary (n-1)/2 | (n+1)/2 and the extremes 1 | n-1 are actually reached
+                    let solve = if entry == "with_k" && rng.chance(1, 3) { Some(*rng.pick(&["half", "half_plus_1", "half_minus_1", "one", "n_minus_1"])) } else { None };
+                    events.push(json!({"op": "sign", "entry": entry, "raw_digest": raw, "solve_s": solve, "key": rng.pick(&keys).clone(), "compressed": rng.chance(2, 3), "hash": *rng.pick(&["sha256", "sha256d"]),
                         "msg": hx(&rng.bytes(mlen)), "k": gen_key(rng), "entropy": hx(&script), "ekind": ekind, "entropy2": hx(&rng.bytes(32))}));
                     slots += 1;
                 }
@@ -197,7 +200,37 @@ impl Scenario for EcdsaNet {
                         ev.clone()
                     };
                     let entry = jstr(&req, "entry").to_string();
-                    let key = jhex(&req, "key");
+                    let mut key = jhex(&req, "key");
+                    if let Some(target) = req.get("solve_s").and_then(|x| x.as_str()) {
+                        // d = (s_target * k - z) / r  (mod n)
+                        let half = rf::scalar_exact(&hex::decode(rf::HALF_N_HEX).unwrap()).unwrap();
+                        let one = k256::Scalar::ONE;
+                        let st = match target {
+                            "half" => half,
+                            "half_plus_1" => half + one,
+                            "half_minus_1" => half - one,
+                            "one" => one,
+                            _ => -one,
+                        };
+                        let hash0 = if entry == "sign_message" { "sha256".to_string() } else { jstr(&req, "hash").to_string() };
+                        let z = rf::scalar_reduced(&digest_of(&hash0, &jhex(&req, "msg")));
+                        let solved = rf::scalar_exact(&jhex(&req, "k")).and_then(|k| {
+                            let rp = rf::pubkey_of(&rf::scalar_bytes(&k), true)?;
+                            let r = rf::scalar_reduced(&rp[1..33]);
+                            let rinv: Option<k256::Scalar> = Option::from(r.invert());
+                            rinv.map(|ri| (st * k - z) * ri)
+                        });
+                        match solved {
+                            Some(d) if !bool::from(elliptic_curve::Field::is_zero(&d)) => {
+                                key = rf::scalar_bytes(&d);
+                                ctx.probe("solved_key_for_boundary_s");
+                            }
+                            _ => {
+                                ctx.skip();
+                                continue;
+                            }
+                        }
+                    }
                     if !rf::is_valid_secret(&key) {
                         ctx.skip();
                         continue;
